@@ -5,6 +5,7 @@ package c20
 import (
 	"fmt"
 	"strings"
+	"sync"
 	"testing"
 	"time"
 
@@ -12,6 +13,7 @@ import (
 
 	"github.com/LemoFoundationLtd/lemochain-core/chain/types"
 	"github.com/LemoFoundationLtd/lemochain-core/common"
+	"github.com/LemoFoundationLtd/lemochain-core/common/rlp"
 	"github.com/LemoFoundationLtd/lemochain-core/network"
 	"github.com/LemoFoundationLtd/lemochain-core/network/p2p"
 	"pgregory.net/rapid"
@@ -112,6 +114,25 @@ func TestC20Sync(t *testing.T) {
 				msgs = append(msgs, netMsg{kind: "confirm", blocks: []int{i}, signer: di})
 			}
 		}
+		// fetch mode: some blocks are never pushed; the node has to ask for them (it requests the parent of every block it
+		// parks) and the peers answer block requests from the segment
+		fetch := rapid.IntRange(0, 3).Draw(rt, "fetchMode") == 0
+		withheld := 0
+		if fetch {
+			var kept []netMsg
+			for _, m := range msgs {
+				tip := false
+				for _, i := range m.blocks {
+					tip = tip || i == len(seg)-1
+				}
+				if m.kind == "blocks" && !tip && rapid.Bool().Draw(rt, "withhold") {
+					withheld += len(m.blocks)
+					continue
+				}
+				kept = append(kept, m)
+			}
+			msgs = kept
+		}
 		for i, cnt := 0, rapid.IntRange(0, 4).Draw(rt, "duplicates"); i < cnt; i++ {
 			msgs = append(msgs, msgs[rapid.IntRange(0, len(msgs)-1).Draw(rt, "dupOf")])
 		}
@@ -134,6 +155,33 @@ func TestC20Sync(t *testing.T) {
 			defer peers[i].Close()
 		}
 		delivered := map[int]bool{}
+		var dmu sync.Mutex
+		if fetch {
+			for _, p := range peers {
+				p := p
+				p.Serve = func(code p2p.MsgCode, content []byte) {
+					if code != p2p.GetBlocksMsg {
+						return
+					}
+					var q network.GetBlocksData
+					if rlp.DecodeBytes(content, &q) != nil || q.To-q.From > 20 {
+						return
+					}
+					var bs []*types.Block
+					dmu.Lock()
+					for i, b := range seg {
+						if b.Height() >= q.From && b.Height() <= q.To {
+							bs = append(bs, sim.DecodeBlock(wire[i]))
+							delivered[i] = true
+						}
+					}
+					dmu.Unlock()
+					if len(bs) > 0 {
+						p.SendBlocks(bs...)
+					}
+				}
+			}
+		}
 		cached := func() map[common.Hash]bool {
 			m := map[common.Hash]bool{}
 			for _, h := range nn.PM.VerifCachedBlocks() {
@@ -151,6 +199,8 @@ func TestC20Sync(t *testing.T) {
 			}
 			c := cached()
 			sta := r.Stable().Height()
+			dmu.Lock()
+			defer dmu.Unlock()
 			for i := range delivered {
 				b := seg[i]
 				if b.Height() <= sta || r.BC.HasBlock(b.Hash()) {
@@ -178,12 +228,14 @@ func TestC20Sync(t *testing.T) {
 						inversion = true
 					}
 				}
+				dmu.Lock()
 				for _, i := range m.blocks {
 					delivered[i] = true
 					if i > maxDelivered {
 						maxDelivered = i
 					}
 				}
+				dmu.Unlock()
 				p.SendBlocks(bs...)
 			case "confirm":
 				i := m.blocks[0]
@@ -244,8 +296,8 @@ func TestC20Sync(t *testing.T) {
 		if left := nn.PM.VerifCachedBlocks(); len(left) > 0 {
 			waitFor(3*time.Second, func() bool { return len(nn.PM.VerifCachedBlocks()) == 0 })
 		}
-		cls := []string{fmt.Sprintf("blocks%d", len(seg)), fmt.Sprintf("peers%d", npeers), fmt.Sprintf("earlyConfirm=%v", earlyConfirm), fmt.Sprintf("inversion=%v", inversion), fmt.Sprintf("stable+%d", min(int(wantStaH), 4))}
-		sim.Case("sync", sim.HashOf(strings.Join(hist, " ")), inversion || earlyConfirm, cls, func() interface{} { return strings.Join(hist, " ") })
+		cls := []string{fmt.Sprintf("blocks%d", len(seg)), fmt.Sprintf("peers%d", npeers), fmt.Sprintf("earlyConfirm=%v", earlyConfirm), fmt.Sprintf("inversion=%v", inversion), fmt.Sprintf("stable+%d", min(int(wantStaH), 4)), fmt.Sprintf("fetch=%v", fetch), fmt.Sprintf("withheld%d", min(withheld, 3))}
+		sim.Case("sync", sim.HashOf(strings.Join(hist, " "), fetch, withheld), inversion || earlyConfirm || withheld > 0, cls, func() interface{} { return strings.Join(hist, " ") })
 		_ = p2p.BlocksMsg
 	})
 }
